@@ -40,8 +40,9 @@ ASSUMPTIONS = [
     "UDTs and namedtuples need cluster schema metadata and are not drawn; BigInteger/Int16 tags are only reachable through to_smallint (no serializer emits gx:BigInteger)",
     "geomet (installed in /venv) parses WKT for the geometric types, as in the driver's own from_wkt",
 ]
-LEVEL_TEXT = ("no counterexample among the generated value trees; exploration, not proof.  Known findings (timedelta "
-              "negative / < 100 us / huge, blobs in hashed positions) are excluded by key and searched behind.")
+LEVEL_TEXT = ("no counterexample among the generated value trees; exploration, not proof.  The findings of the first runs "
+              "(timedelta negative / < 100 us / beyond 2**33 s, blobs in hashed positions) are fixed in the tree and kept as "
+              "regressions/C40/*.json, replayed on every run.")
 
 _MIN = datetime.datetime.min
 _MAX_US = (datetime.datetime.max - _MIN) // datetime.timedelta(microseconds=1)
@@ -227,15 +228,15 @@ def s_timedelta_tame():
 
 
 def s_scalar(ver, hashable=False, inner=False):
-    """inner=True: element of a container -- the scalar classes with known findings are made rare there so that the
-    containers themselves are exercised (a failing leaf suspends the verdict on its container)"""
-    td = weighted((6, s_timedelta_tame()), (1, s_timedelta())) if inner else weighted((1, s_timedelta_tame()), (3, s_timedelta()))
+    """inner=True: element of a container (a failing leaf suspends the verdict on its container, so the plain classes
+    get more weight there)"""
+    td = weighted((2, s_timedelta_tame()), (1, s_timedelta())) if inner else weighted((1, s_timedelta_tame()), (3, s_timedelta()))
     alts = [(2, s_int()), (2, s_float()), (2, s_text()), (1, s_bool()), (1, s_uuid()), (2, s_decimal()), (2, s_date()),
             (2, s_time()), (4, s_instant()), (3 if inner else 6, td), (2, s_inet()),
             (1, s_point()), (1, s_linestring()), (2, s_polygon())]
     if hashable:
-        # bytes only (bytearray is unhashable as an *input*); kept rare: see the blob-in-hashed-position finding
-        alts.append((1, s_blob(forms=("bytes",))))
+        # bytes only (bytearray is unhashable as an *input*)
+        alts.append((2, s_blob(forms=("bytes",))))
     else:
         alts.append((3, s_blob()))
     if ver == 3 and not hashable:
